@@ -10,7 +10,7 @@ pub mod jobs {
         pub fn to_pid_style_string(&self) -> String { unimplemented!() }
     }
 }
-pub struct RuntimeOptions { pub interactive: bool }
+// RuntimeOptions: the real struct of brush-core/src/options.rs is extracted by the unit
 impl Shell {
     #[verifier::external_body]
     pub fn options(&self) -> &RuntimeOptions { unimplemented!() }
